@@ -508,7 +508,9 @@ def run_kani(src):
     """closed-term Kani harnesses on the real header/version/purpose/PAE files (complete proofs, no bound on inputs): harness -> ok"""
     h = hashlib.md5(os.path.abspath(src).encode()).hexdigest()[:10]
     d = os.path.join(VERIF, "build", "kani_" + h); os.makedirs(os.path.join(d, "src"), exist_ok=True)
-    shutil.copy(os.path.join(VERIF, "kani", "Cargo.toml"), os.path.join(d, "Cargo.toml"))
+    # the harness crate is named after the hash of the tree it is built for: concurrent runs against different copies share the target
+    # directory (dependencies are built once) but never each other's artifacts
+    open(os.path.join(d, "Cargo.toml"), "w").write(open(os.path.join(VERIF, "kani", "Cargo.toml")).read().replace('name = "rp_kani"', 'name = "rp_kani_%s"' % h))
     if os.path.exists(os.path.join(VERIF, "kani", "Cargo.lock")): shutil.copy(os.path.join(VERIF, "kani", "Cargo.lock"), os.path.join(d, "Cargo.lock"))
     open(os.path.join(d, "src", "lib.rs"), "w").write(open(os.path.join(VERIF, "kani", "lib.rs.tmpl")).read().replace("@SRC@", os.path.abspath(src)))
     env = dict(os.environ, CARGO_NET_OFFLINE="true", CARGO_TARGET_DIR=os.path.join(VERIF, "build", "kani_target"))
